@@ -8,6 +8,7 @@ ENGINES = {
     "C01": ("e3", "run"), "C02": ("e3", "run"), "C03": ("e3", "run"),
     "C19": ("props.c19", "run"),
     "C06": ("props.c06", "run"),
+    "C04": ("props.c04", "run"),
 }
 
 
